@@ -498,6 +498,33 @@ class Program:
         arr.values[idx] = v
         self.ev(op="edit_flow", id=k + 1, pos=pos, val=frac(v))
 
+    def narrowed(self, dtypes):
+        """Context: some flows temporarily hold the SAME numbers in a narrow dtype that represents them exactly (set through set_values,
+        restored afterwards); what a check reports or a plot shows does not depend on how the numbers are stored."""
+        import contextlib
+
+        @contextlib.contextmanager
+        def cm():
+            saved = []
+            for f in self.model["flows"]:
+                arr = self.mfa.flows[f["name"]]
+                v = np.asarray(arr.values)
+                if v.dtype != np.float64 or np.isnan(v).any() or self.rnd.random() < 0.4:
+                    continue
+                for dt in dtypes:
+                    with np.errstate(all="ignore"):
+                        w = v.astype(dt)
+                    if np.array_equal(w.astype(np.float64), v):
+                        saved.append((arr, v.copy()))
+                        arr.set_values(w)
+                        break
+            try:
+                yield len(saved)
+            finally:
+                for arr, v in saved:
+                    arr.set_values(v)
+        return cm()
+
     def logged(self, fn):
         root = logging.getLogger()
         prev = root.manager.disable
@@ -523,7 +550,12 @@ class Program:
         form = rnd.choice(["half", "zero", "zero_f"] if nan else ["half", "default", "default", "zero", "zero_f"])
         tol_arg = {"half": 0.5, "default": None, "zero": 0, "zero_f": 0.0}[form]
         raise_error = rnd.random() < 0.5
-        raised, msgs = self.logged(lambda: self.mfa.check_mass_balance(tolerance=tol_arg, raise_error=raise_error))
+        if not nan and form != "default" and rnd.random() < 0.35:
+            # (explicit tolerances only: the default tolerance is scaled with the float precision of the stored dtype)
+            with self.narrowed([np.int8, np.int16, np.float32]):
+                raised, msgs = self.logged(lambda: self.mfa.check_mass_balance(tolerance=tol_arg, raise_error=raise_error))
+        else:
+            raised, msgs = self.logged(lambda: self.mfa.check_mass_balance(tolerance=tol_arg, raise_error=raise_error))
         text = raised if raised is not None else " ".join(msgs)
         failing = names_in(text, self.model["procs"])
         if (raised is not None or msgs) and not failing:
@@ -774,7 +806,11 @@ class Program:
         if exclp != ["sysenv"] or rnd.random() < 0.5:
             kw["exclude_processes"] = list(exclp)           # (["sysenv"] is also the default)
         try:
-            fig = PlotlySankeyPlotter(**kw).plot()
+            if rnd.random() < 0.4:
+                with self.narrowed([np.uint8, np.int16, np.float32]):
+                    fig = PlotlySankeyPlotter(**kw).plot()
+            else:
+                fig = PlotlySankeyPlotter(**kw).plot()
             sk = fig.data[0]
             nodes = [str(x) for x in sk.node.label]
             names = {f["name"] for f in m["flows"]}
